@@ -287,6 +287,18 @@ func defSrc(gf, fam string, m *ref.Method) string {
 		gf, ll, tag, next, tag, tag)
 }
 
+func findSrc(gf, fam, qual string, spec []int) string {
+	q := "()"
+	if qual != ref.Primary {
+		q = "(:" + qual + ")"
+	}
+	names := make([]string, len(spec))
+	for i, s := range spec {
+		names[i] = specName(fam, s)
+	}
+	return fmt.Sprintf(`(setq c10m (find-method '%s '%s '(%s) nil))`, gf, q, strings.Join(names, " "))
+}
+
 func remSrc(gf, fam, qual string, spec []int) string {
 	q := "()"
 	if qual != ref.Primary {
